@@ -144,7 +144,8 @@ Lemma on_frame_begin_etrack (s : rstate) f :
 Proof.
   unfold on_frame_begin. change (fb_is_ctl (f_op f)) with (pd_is_ctl (f_op f)). destruct (pd_is_ctl (f_op f)).
   - cbn. split; [apply etrack_refl|auto].
-  - match goal with |- context [on_message_frame_begin D cf ?c ?m ?l] =>
+  - destruct (failed (cn D s)); [cbn; split; [apply etrack_refl|]; repeat split; auto; try discriminate|].
+    match goal with |- context [on_message_frame_begin D cf ?c ?m ?l] =>
       pose proof (omfb_etrack c m l) as H; destruct (on_message_frame_begin D cf c m l) as [[c1 m2] e] end.
     cbn. split; [exact H|]. repeat split; auto; try discriminate.
 Qed.
